@@ -4,7 +4,7 @@ import SciVerif.Tie.Pins
 /-! Tie A obligations for C02 on the current source. -/
 namespace SciVerif.Tie
 -- functions the model relies on without an obligation of its own naming them (pinned by bin/mkpins):
--- PIN-ALSO: Scipipe.FileIP_TempPath
+-- PIN-ALSO: Scipipe.FileIP_TempPath Scipipe.FileIP_Exists Scipipe.FileIP_TempFileExists
 open SciVerif.TaskFS
 
 theorem generated_wf_c02 : WF_C02 taskSem := by decide
@@ -27,12 +27,15 @@ theorem generated_all_ops_known_c02 : taskSemKnown = true := by decide
 
 
 
+
 -- BEGIN PINS (written by bin/mkpins; do not edit by hand)
 /-- the Go functions this property's model and obligations were written against have exactly the
 pinned skeletons (SHA-256 prefix of the atom list) -/
 theorem pinned_skeletons_c02 :
     pinsOk
     [("Scipipe.#decls", "7633eb8a74616d59"),
+     ("Scipipe.FileIP_Exists", "1916709587285b24"),
+     ("Scipipe.FileIP_TempFileExists", "b451ff234c47445a"),
      ("Scipipe.FileIP_TempPath", "7eba22a35232a5cb"),
      ("Scipipe.FinalizePaths", "291fc0cefa37cea9"),
      ("Scipipe.Task_Execute", "40fd1fec0c69deb2"),
